@@ -39,6 +39,13 @@ def points(tier):
     for host, cache, payload in itertools.product(('127.0.0.1', '[::1]'), ('cold', 'warm'), ('get',) if tier == 'quick' else PAYLOADS):
         out.append({'host': host, 'cert': 'wrongname', 'insecure': False, 'optout': False, 'cache': cache,
                     'payload': payload, 'packing': 'whole', 'host_header': 'certname'})
+    # a host name longer than an X.509 commonName can hold (64): it is named by the subjectAltName like any other
+    for cert, insecure, optout, cache in itertools.product(('trusted', 'wrongname', 'selfsigned'), (False, True), (False, 'only'),
+                                                           ('cold', 'warm')):
+        if tier == 'quick' and (insecure, optout) == (True, 'only'):
+            continue
+        out.append({'host': 'long', 'cert': cert, 'insecure': insecure, 'optout': optout, 'cache': cache,
+                    'payload': 'get' if cache == 'cold' else 'two', 'packing': 'whole'})
     return out
 
 
@@ -113,7 +120,7 @@ def run(tier):
         for sym, detail in verdicts:
             if sym == 'harness_error':
                 herr += 1
-            hk = 'name' if pt['host'] == 'origin.test' else ('ipv4' if pt['host'] == '127.0.0.1' else 'ipv6')
+            hk = {'origin.test': 'name', 'long': 'name_longer_than_a_common_name', '127.0.0.1': 'ipv4'}.get(pt['host'], 'ipv6')
             feats = {'symptom': sym, 'host_kind': hk, 'cert': pt['cert'], 'insecure': pt['insecure'], 'optout': pt['optout'] not in (False, 'bystander_only')}
             k = tuple(sorted(feats.items()))
             if k in seen:
